@@ -3,7 +3,8 @@
    Model: Model/Cursor.v (statement-level model of EntriesCursor.SkipTo: gallop + binary search,
    FieldCursor.SkipTo, NewFieldCursor, FieldCursors.Sort).  Statements only. *)
 From Coq Require Import List NArith Bool Arith Permutation Sorting.Sorted.
-From BE Require Import Model.Scan Model.Cursor Proofs.CursorProof Proofs.Refine Proofs.CursorHist.
+From BE Require Import Model.Scan Model.Cursor Proofs.CursorProof Proofs.Refine Proofs.CursorHist Proofs.CursorGenProof.
+From Coq Require Import ZArith.
 Import ListNotations.
 Local Open Scope N_scope.
 
@@ -44,6 +45,30 @@ Theorem C12_sort : forall fs,
   StronglySorted (fun a b => fc_current a <= fc_current b) (sort_fcursors fs).
 Proof. exact sort_fcursors_spec. Qed.
 
+(* the tie to the source, as a theorem: EntriesCursor.SkipTo TRANSLATED from index_scanner.go on every run
+   (Gen/CursorGen.v: both loops, Go's 64-bit wrap at every arithmetic node, Panic where a slice read would be out of
+   range, OutOfFuel when a loop's fuel ends) computes what the model computes, outcome for outcome, on every list
+   shorter than 2^60 entries (sorted or not), every cursor position inside it and every target *)
+Theorem C12_translated_SkipTo_is_model : forall l c id,
+  (Z.of_nat (length l) < 2^60)%Z -> (c_pos c <= length l)%nat ->
+  G.EntriesCursor_SkipTo (length l) (Z.of_nat (c_pos c)) l (Z.of_nat (length l)) (c_eid c) id =
+  match skip_to l c id with
+  | Some c' => G.Ret ((Z.of_nat (c_pos c'), c_eid c'), c_eid c')
+  | None => G.OutOfFuel
+  end.
+Proof. exact SkipTo_translated_is_model. Qed.
+
+(* hence the property for the translated code itself: no panic, `length l` units of fuel suffice, never back,
+   only entries below the target are skipped, lands on an entry >= target, stays put if already there *)
+Theorem C12_translated_SkipTo_spec : forall l id, sortedN l -> id <= NULLENTRY ->
+  (Z.of_nat (length l) < 2^60)%Z -> forall c, WF l c ->
+  exists c', G.EntriesCursor_SkipTo (length l) (Z.of_nat (c_pos c)) l (Z.of_nat (length l)) (c_eid c) id =
+               G.Ret ((Z.of_nat (c_pos c'), c_eid c'), c_eid c') /\
+    WF l c' /\ (c_pos c <= c_pos c')%nat /\
+    (forall i, (c_pos c <= i < c_pos c')%nat -> ent l i < id) /\ id <= c_eid c' /\
+    (id <= c_eid c -> c' = c).
+Proof. exact SkipTo_translated_spec. Qed.
+
 (* the model's sentinel is the constant of the current source *)
 Theorem C12_sentinel_is_generated : Cursor.NULLENTRY = BE.Gen.IdsGen.NULLENTRY.
 Proof. exact nullentry_is_generated. Qed.
@@ -64,3 +89,5 @@ Print Assumptions C12_field_cursor_skip.
 Print Assumptions C12_field_cursor_new.
 Print Assumptions C12_sort.
 Print Assumptions C12_sentinel_is_generated.
+Print Assumptions C12_translated_SkipTo_is_model.
+Print Assumptions C12_translated_SkipTo_spec.
